@@ -4,12 +4,16 @@
    exactly the bytes that file had in the source -- never another file's bytes; if the
    backup reports complete success the version holds the whole source."
 
-   Part A: no program of this development ever panics ([no_panic]).
-   Part B: a generic form of the weakest-precondition rules of RefIntP.v (any state invariant
-           kept by add-only operations), with a post-condition that says exactly what each
-           operation did.
-   Part C: [backup_new_entries_truthful].
-   Part D: [backup_success_complete] / [skip_is_reported]. *)
+   A. No program of this development ever panics ([no_panic], [never_panics]).
+   B. The weakest-precondition rules of RefIntP.v for ANY state invariant kept by add-only
+      operations ([gsafe_step], [gsafe_sound]), with a post-condition [xpost] that says
+      exactly what each operation did.
+   C. [backup_new_entries_truthful], [backup_recorded_truthful], [backup_reused_content]:
+      invariant [J] (state) / [TW] (writer) / [TS] (stitched basis) carried through every
+      sub-program of the backup, combined with [backup_ainv] of RefIntP.v.
+   D. [backup_success_complete], [backup_success_exactly_one], [skip_is_reported]: an
+      accounting invariant ([CI], [ALL]) carried through the same skeleton.
+   E. Examples by computation on runs with faults (TruthExamples). *)
 From Coq Require Import Lia Permutation.
 From CV Require Import Base.Str Base.StrP Apath ApathP Entry Stitch Tree Codec CodecP Store StitchProg Backup
   Ops Delete Read SafeP Inv RefIntP Truth.
@@ -191,7 +195,7 @@ Section ProgsNP.
   Proof.
     induction ids as [|b ids IH]; intros k Hk; cbn [last_complete]; auto.
     apply np_do. intros r.
-    destruct (head_status r) eqn:E; [| apply Hk | destruct (head_status_no_panic r E)].
+    destruct (head_status r) eqn:E; [| apply IH; exact Hk | destruct (head_status_no_panic r E)].
     repeat np_step; auto.
   Qed.
 
@@ -1214,10 +1218,39 @@ Proof.
   rewrite (new_band_no_hunks pre a0 HD h) in G0. discriminate G0.
 Qed.
 
+(* a reused entry restores to exactly what its basis entry restored to before the run *)
+Lemma same_addrs_same_content a0 a e be d :
+  Old a0 a -> e_addrs e = e_addrs be -> content_of a0 be = Some d -> content_of a e = Some d.
+Proof.
+  intros HO E H. unfold content_of in *. rewrite E. eapply read_addrs_mono; [|exact H].
+  intros h x. apply blk_of_mono. exact HO.
+Qed.
+
+Corollary backup_reused_content : forall pre c src a0 phi,
+  AInv a0 ->
+  forall a, In a (run_states pre (backup_prog pre c src) a0 phi)
+            \/ a = snd (fst (run pre (backup_prog pre c src) a0 phi)) ->
+  forall it e, ReusedFrom a0 (new_band a0) it e ->
+  exists be d, InBasis a0 (new_band a0) be /\ e_apath be = s_apath (si_e it)
+               /\ (forall w, unchanged w (si_e it) be = true)
+               /\ content_of a0 be = Some d /\ content_of a e = Some d.
+Proof.
+  intros pre c src a0 phi HA a Ha it e (be & Hib & Hp & Hu & He).
+  assert (HO : Old a0 a).
+  { destruct (backup_write_once pre c src a0 phi) as [W1 W2].
+    destruct Ha as [Ha| ->]; [|exact W2]. rewrite Forall_forall in W1. auto. }
+  pose proof Hib as (b' & h' & es' & _ & G & Hin).
+  destruct HA as (HR & _). pose proof (HR _ _ _ G) as Hok. rewrite Forall_forall in Hok.
+  pose proof (entry_ok_content _ _ (Hok _ Hin)) as Hne.
+  destruct (content_of a0 be) as [d|] eqn:Ed; [|contradiction].
+  exists be, d. repeat split; auto. eapply same_addrs_same_content; eauto.
+Qed.
+
 Print Assumptions never_panics.
 Print Assumptions never_panics_all.
 Print Assumptions backup_new_entries_truthful.
 Print Assumptions backup_recorded_truthful.
+Print Assumptions backup_reused_content.
 
 (* ------------------------------------------------------------------------- *)
 (** * D. A backup that reports complete success recorded the whole source      *)
@@ -1769,6 +1802,17 @@ Proof.
     destruct He as [it [E Hit]]. apply filter_In in Hit. exists it. tauto.
 Qed.
 
+(* the same for an archive whose files all lie in existing directories *)
+Corollary backup_success_complete_wf : forall pre c src a0 phi r,
+  DirsWF pre a0 ->
+  snd (run pre (backup_prog pre c src) a0 phi) = Done r ->
+  b_ok r = true -> b_errors r = 0 ->
+  Complete src (snd (fst (run pre (backup_prog pre c src) a0 phi))) (new_band a0)
+  /\ b_band r = Some (new_band a0).
+Proof.
+  intros pre c src a0 phi r HD. apply backup_success_complete. apply (new_band_no_hunks pre). exact HD.
+Qed.
+
 (** The weaker form: a source item that is not recorded is always reported. *)
 Corollary skip_is_reported : forall pre c src a0 phi r it,
   (forall h, get a0 (PHunk (new_band a0) h) = None) ->
@@ -1816,3 +1860,182 @@ Qed.
 Print Assumptions backup_success_complete.
 Print Assumptions backup_success_exactly_one.
 Print Assumptions skip_is_reported.
+
+(* ------------------------------------------------------------------------- *)
+(** * E. Examples (non-vacuity), by computation                               *)
+(* ------------------------------------------------------------------------- *)
+Module TruthExamples.
+  Import SafeExamples RefIntExamples.
+
+  (* a third backup on top of SafeExamples.ex_a3 (bands 0 and 1): small files are combined
+     three bytes at a time ("/a"+"/c" -> block [8;9;3], "/d"+"/e" -> block [4;5;6]); "/b" is
+     unchanged since band 1 and is reused; "/f" is empty; "/g" is cut into blocks of 3 *)
+  Definition ex4_cfg : cfg := {| c_meph := 10; c_mbs := 3; c_sfc := 2; c_owner := false |}.
+  Definition ex4_src : list sitem :=
+    [ {| si_e := mk_s [47] KDir 0 1000000000; si_data := [] |};
+      {| si_e := mk_s [47;97] KFile 2 3000000000; si_data := [8;9] |};
+      {| si_e := mk_s [47;98] KFile 6 1000000007; si_data := [1;2;3;4;5;7] |};
+      {| si_e := mk_s [47;99] KFile 1 3000000000; si_data := [3] |};
+      {| si_e := mk_s [47;100] KFile 2 3000000000; si_data := [4;5] |};
+      {| si_e := mk_s [47;101] KFile 1 3000000000; si_data := [6] |};
+      {| si_e := mk_s [47;102] KFile 0 3000000000; si_data := [] |};
+      {| si_e := mk_s [47;103] KFile 4 3000000000; si_data := [9;9;9;9] |} ].
+  Definition backup4 := backup_prog ex_pre ex4_cfg ex4_src.
+
+  (* an I/O error on the write of the first combined block *)
+  Definition ex4_phi := repeat NoFault 19 ++ [Fail EOther].
+  (* the same, and then the process is killed while writing the index hunk *)
+  Definition ex4_phi_crash := repeat NoFault 19 ++ [Fail EOther] ++ repeat NoFault 7 ++ [CrashEmpty].
+
+  Example ex4_hyps :
+    ainv_b ex_a3 = true /\ dirswf_b ex_pre ex_a3 = true /\ srcok_b ex4_src = true
+    /\ new_band ex_a3 = 2 /\ band_hunks ex_a3 2 = [].
+  Proof. vm_compute. repeat split; reflexivity. Qed.
+
+  Definition paths_of (a : arch) : list str := map e_apath (band_entries a 2).
+  Definition all_own (a : arch) : bool := forallb (reads_own_bytes ex4_src a) (band_entries a 2).
+
+  (* no fault: eight entries, each file reads back to its own bytes; "/c" is bytes 2..3 of the
+     block it shares with "/a"; "/b" carries the addresses of its basis entry in band 1 *)
+  Example ex4_clean :
+    let a := final backup4 ex_a3 [] in
+    snd (run ex_pre backup4 ex_a3 [])
+    = Done {| b_ok := true; b_errors := 0; b_merr := 0; b_written := 4; b_deleted := 0; b_band := Some 2 |}
+    /\ paths_of a = [[47]; [47;97]; [47;98]; [47;99]; [47;100]; [47;101]; [47;102]; [47;103]]
+    /\ all_own a = true
+    /\ map (fun e => (e_addrs e, content_of a e)) (filter (fun e => str_eqb (e_apath e) [47;99]) (band_entries a 2))
+       = [([{| a_hash := [8;9;3]; a_start := 2; a_len := 1 |}], Some [3])]
+    /\ map e_addrs (filter (fun e => str_eqb (e_apath e) [47;98]) (band_entries a 2))
+       = map e_addrs (filter (fun e => str_eqb (e_apath e) [47;98]) (band_entries ex_a3 1))
+    /\ get a (PTail 2) = Some (Good (PlTail (Some 1))).
+  Proof. vm_compute. repeat split; reflexivity. Qed.
+
+  (* the write of the combined block [8;9;3] fails: "/a" and "/c" are dropped TOGETHER WITH
+     their bytes (one error is counted); the small files that follow start a new buffer and
+     still read back to their own bytes ("/d" = bytes 0..2 of the block [4;5;6]); so does
+     every recorded entry at every state of the run *)
+  Example ex4_failed_flush :
+    let a := final backup4 ex_a3 ex4_phi in
+    nth_error (trace backup4 ex_a3 ex4_phi) 19
+    = Some (OpWrite (PBlock [8;9;3]) (PlBlock [8;9;3]) CreateNew, RErr EOther)
+    /\ snd (run ex_pre backup4 ex_a3 ex4_phi)
+       = Done {| b_ok := true; b_errors := 1; b_merr := 1; b_written := 3; b_deleted := 0; b_band := Some 2 |}
+    /\ paths_of a = [[47]; [47;98]; [47;100]; [47;101]; [47;102]; [47;103]]
+    /\ all_own a = true
+    /\ map (fun e => (e_addrs e, content_of a e)) (filter (fun e => str_eqb (e_apath e) [47;100]) (band_entries a 2))
+       = [([{| a_hash := [4;5;6]; a_start := 0; a_len := 2 |}], Some [4;5])]
+    /\ map (fun e => (e_addrs e, content_of a e)) (filter (fun e => str_eqb (e_apath e) [47;101]) (band_entries a 2))
+       = [([{| a_hash := [4;5;6]; a_start := 2; a_len := 1 |}], Some [6])]
+    /\ get a (PBlock [8;9;3]) = None
+    /\ forallb all_own (run_states ex_pre backup4 ex_a3 ex4_phi) = true
+    /\ length (run_states ex_pre backup4 ex_a3 ex4_phi) = 29%nat.
+  Proof. vm_compute. repeat split; reflexivity. Qed.
+
+  (* a crash that leaves a zero-length index hunk: nothing is recorded, nothing is wrong *)
+  Example ex4_crash :
+    snd (run ex_pre backup4 ex_a3 ex4_phi_crash) = Crashed
+    /\ get (final backup4 ex_a3 ex4_phi_crash) (PHunk 2 0) = Some Empty
+    /\ forallb all_own (run_states ex_pre backup4 ex_a3 ex4_phi_crash) = true
+    /\ paths_of (final backup4 ex_a3 ex4_phi_crash) = [].
+  Proof. vm_compute. repeat split; reflexivity. Qed.
+
+  (* the check is not trivially true: an entry for "/d" pointing at the bytes of "/a" *)
+  Definition ex4_wrong : entry :=
+    with_addrs (meta_from false (mk_s [47;100] KFile 2 3000000000))
+      [{| a_hash := [8;9;3]; a_start := 0; a_len := 2 |}].
+  Example ex4_wrong_detected :
+    content_of (final backup4 ex_a3 []) ex4_wrong = Some [8;9]
+    /\ reads_own_bytes ex4_src (final backup4 ex_a3 []) ex4_wrong = false.
+  Proof. vm_compute. split; reflexivity. Qed.
+
+  (* the same facts as instances of the theorems *)
+  Lemma ex4_AInv : AInv ex_a3.
+  Proof. apply ainv_b_sound. vm_compute. reflexivity. Qed.
+  Lemma ex4_DirsWF : DirsWF ex_pre ex_a3.
+  Proof. apply dirswf_b_sound. vm_compute. reflexivity. Qed.
+  Lemma ex4_SrcOK : SrcOK ex4_src.
+  Proof. apply srcok_b_sound. vm_compute. reflexivity. Qed.
+  Lemma ex4_cfg_ok : cfg_ok ex4_cfg.
+  Proof. unfold cfg_ok. cbn. lia. Qed.
+  Lemma ex4_new_band : new_band ex_a3 = 2.
+  Proof. vm_compute. reflexivity. Qed.
+
+  Example ex4_truthful_thm :
+    Forall (HunksTruthful ex4_cfg ex4_src ex_a3 2) (run_states ex_pre backup4 ex_a3 ex4_phi)
+    /\ HunksTruthful ex4_cfg ex4_src ex_a3 2 (final backup4 ex_a3 ex4_phi).
+  Proof.
+    destruct (backup_new_entries_truthful ex_pre ex4_cfg ex4_src ex_a3 ex4_phi
+                ex4_AInv ex4_SrcOK ex4_cfg_ok) as (H1 & H2 & _).
+    rewrite ex4_new_band in H1, H2. split; assumption.
+  Qed.
+
+  (* the entries the faulty run recorded *)
+  Definition ex4_es : list entry :=
+    Eval vm_compute in
+      match get (final backup4 ex_a3 ex4_phi) (PHunk 2 0) with Some (Good (PlHunk es)) => es | _ => [] end.
+  Definition ex4_e_b : entry := Eval vm_compute in nth 1 ex4_es ex4_wrong.     (* "/b", reused *)
+  Definition ex4_e_d : entry := Eval vm_compute in nth 2 ex4_es ex4_wrong.     (* "/d", fresh *)
+
+  Example ex4_recorded :
+    Recorded (final backup4 ex_a3 ex4_phi) 2 ex4_e_b /\ Recorded (final backup4 ex_a3 ex4_phi) 2 ex4_e_d
+    /\ e_apath ex4_e_b = [47;98] /\ e_apath ex4_e_d = [47;100]
+    /\ e_kind ex4_e_b = KFile /\ e_kind ex4_e_d = KFile.
+  Proof.
+    split; [|split].
+    - exists 0, ex4_es. split; [vm_compute; reflexivity | right; left; reflexivity].
+    - exists 0, ex4_es. split; [vm_compute; reflexivity | right; right; left; reflexivity].
+    - repeat split; reflexivity.
+  Qed.
+
+  Example ex4_recorded_truthful_all : forall e,
+    Recorded (final backup4 ex_a3 ex4_phi) 2 e -> e_kind e = KFile ->
+    Truthful ex4_cfg ex4_src ex_a3 2 (final backup4 ex_a3 ex4_phi) e.
+  Proof.
+    pose proof (backup_recorded_truthful ex_pre ex4_cfg ex4_src ex_a3 ex4_phi
+                  ex4_AInv ex4_DirsWF ex4_SrcOK ex4_cfg_ok _ (or_intror eq_refl)) as H.
+    rewrite ex4_new_band in H. exact H.
+  Qed.
+  Example ex4_recorded_truthful_thm :
+    Truthful ex4_cfg ex4_src ex_a3 2 (final backup4 ex_a3 ex4_phi) ex4_e_b
+    /\ Truthful ex4_cfg ex4_src ex_a3 2 (final backup4 ex_a3 ex4_phi) ex4_e_d.
+  Proof.
+    destruct ex4_recorded as (R1 & R2 & _).
+    split; apply ex4_recorded_truthful_all; [exact R1 | reflexivity | exact R2 | reflexivity].
+  Qed.
+
+  (* success means complete: the clean run; the faulty run reports its loss *)
+  Example ex4_complete_thm : Complete ex4_src (final backup4 ex_a3 []) 2.
+  Proof.
+    destruct (backup_success_complete ex_pre ex4_cfg ex4_src ex_a3 []
+                {| b_ok := true; b_errors := 0; b_merr := 0; b_written := 4; b_deleted := 0; b_band := Some 2 |})
+      as [H _].
+    - apply (new_band_no_hunks ex_pre). exact ex4_DirsWF.
+    - vm_compute. reflexivity.
+    - reflexivity.
+    - reflexivity.
+    - rewrite ex4_new_band in H. exact H.
+  Qed.
+  Example ex4_complete_checked :
+    map e_apath (rec_upto (final backup4 ex_a3 []) 2 1) = kpaths ex4_src
+    /\ length (kpaths ex4_src) = 8%nat.
+  Proof. vm_compute. split; reflexivity. Qed.
+  Example ex4_skipped_reported :
+    existsb (fun e => str_eqb (e_apath e) [47;97]) (band_entries (final backup4 ex_a3 ex4_phi) 2) = false
+    /\ existsb (fun e => str_eqb (e_apath e) [47;99]) (band_entries (final backup4 ex_a3 ex4_phi) 2) = false
+    /\ (match snd (run ex_pre backup4 ex_a3 ex4_phi) with Done r => b_errors r | _ => 0 end) = 1.
+  Proof. vm_compute. repeat split; reflexivity. Qed.
+
+  (* never_panics: a band head with an unparsable version is an error, not a panic *)
+  Definition ex_badhead : arch :=
+    fst (exec ex_pre ex_a3 (OpWrite (PHead 1) (PlHead HvUnparsable) Overwrite) NoFault).
+  Example ex_no_panic :
+    snd (run ex_pre (restore_prog Latest keep_all) ex_badhead [])
+    = Done {| r_ok := false; r_files := []; r_merr := 0 |}
+    /\ snd (run ex_pre (validate_prog false []) ex_badhead []) = Done {| v_ok := true; v_errors := 1 |}
+    /\ snd (run ex_pre (list_prog LatestClosed keep_all) ex_badhead [])
+       = snd (run ex_pre (list_prog (Specified 0) keep_all) ex_badhead [])
+    /\ snd (run ex_pre (delete_prog [0] false false []) ex_badhead []) = Done dfail
+    /\ snd (run ex_pre (backup 7) ex_badhead [])
+       = Done {| b_ok := true; b_errors := 0; b_merr := 1; b_written := 0; b_deleted := 0; b_band := Some 2 |}.
+  Proof. vm_compute. repeat split; reflexivity. Qed.
+End TruthExamples.
